@@ -1,0 +1,14 @@
+//go:build verif
+
+// Contracts for package token, checked by /verif (govc). Comment-only file.
+package token
+
+// ---- C11 / C03: languages of the token regexes.
+//@ lemma lang_tokenRef(x string)
+//@   property C11 C03
+//@   ensures [equiv] matches(x, regexTokenRef) <==> inLang(x, yamlTokenL())
+// fn(args): a Go identifier, "(", anything without a line break, ")".
+//@ lemma lang_simpleFn(x string)
+//@   property C11 C03
+//@   ensures [equiv] matches(x, regexSimpleFn) <==>
+//@        inLang(x, reAnd(reCat(goTokenL(), reLit("("), reFull("(?s:.)*"), reLit(")")), reNot(reFull("(?s:.)*\n(?s:.)*"))))
